@@ -1,6 +1,6 @@
 SPECIFICATION TraceSpec
 CONSTANTS MaxSeg = 0
-INVARIANTS TypeOK DataClosed CanonHasHeads CanonLinked CanonEndsAtHead HeadOrder HeadStateAvail LookupComplete LookupSound
+INVARIANTS TypeOK DataClosed CanonHasHeads CanonLinked CanonEndsAtHead HeadOrder HeadStateAvail LookupComplete LookupSound CacheCoherent
 PROPERTIES RemovedLogsExact AddedLogsComplete AddedLogsNoDup HeadEventIsHead
 POSTCONDITION TraceAccepted
 CHECK_DEADLOCK FALSE
